@@ -8,7 +8,7 @@
 //     opdef : cube:sx:sy:sz:tx:ty:tz | sphere:r:seg:tx:ty:tz | cyl:h:r:seg:tx:ty:tz
 //             | tet:s:tx:ty:tz | smoothtet:s | smoothsphere:r:seg
 //     def   : prefix expression without blanks over  $i (operand i), #j (earlier def j,
-//             shared sub-expression),  +(..) -(..) ^(..)  B+(..) B^(..) (BatchBoolean)
+//             shared sub-expression),  +(..) -(..) ^(..)  B+(..) B^(..) B-(..) (BatchBoolean)
 //             T(e,x,y,z) S(e,s) R(e,deg)            -- the last def is the root
 //     final : status | refine:n | reflen:l | reftol:t | hull | minksum:<def> | minkdiff:<def>
 //             | frommesh | frommesh64 | smooth | levelset:kind:edge
@@ -105,7 +105,7 @@ struct Parser {
       for (size_t i = 1; i < a.size(); ++i) r = c == '+' ? r + a[i] : c == '-' ? r - a[i] : r ^ a[i];
       return r;
     }
-    if (c == 'B') { char o = s[p++]; auto a = Args(); return Manifold::BatchBoolean(a, o == '+' ? OpType::Add : OpType::Intersect); }
+    if (c == 'B') { char o = s[p++]; auto a = Args(); return Manifold::BatchBoolean(a, o == '+' ? OpType::Add : o == '-' ? OpType::Subtract : OpType::Intersect); }
     if (c == 'T') { Expect('('); Manifold e = Expr(); Expect(','); double x = Num(); Expect(','); double y = Num(); Expect(',');
                     double z = Num(); Expect(')'); return e.Translate(vec3(x, y, z)); }
     if (c == 'S') { Expect('('); Manifold e = Expr(); Expect(','); double x = Num(); Expect(')'); return e.Scale(vec3(x)); }
